@@ -4,6 +4,7 @@ package jd
 
 import (
 	"fmt"
+	"math"
 	"sort"
 	"strings"
 )
@@ -237,6 +238,9 @@ func verifLit(x interface{}) string {
 	case jsonBool:
 		return fmt.Sprintf("jsonBool(%v)", bool(v))
 	case jsonNumber:
+		if v == 0 && math.Signbit(float64(v)) {
+			return "verifNegZero()"
+		}
 		return fmt.Sprintf("jsonNumber(%v)", float64(v))
 	case jsonString:
 		return fmt.Sprintf("jsonString(%q)", string(v))
@@ -400,3 +404,6 @@ func verifPointerDocs() []JsonNode {
 	}
 	return out
 }
+
+// verifNegZero is the number -0 (a Go constant cannot express it).
+func verifNegZero() JsonNode { return jsonNumber(math.Copysign(0, -1)) }
